@@ -48,7 +48,11 @@ class _Child:
                 signal.signal(signal.SIGALRM, signal.SIG_IGN)
                 if mem:
                     try:
-                        resource.setrlimit(resource.RLIMIT_AS, (mem, mem))
+                        # the child inherits the driver's address space (a thorough run holds hundreds of thousands of traces):
+                        # the limit is what the child may ADD to a small driver's size, not an absolute figure
+                        vm = int(open("/proc/self/statm").read().split()[0]) * os.sysconf("SC_PAGE_SIZE")
+                        lim = mem + max(0, vm - (768 << 20))
+                        resource.setrlimit(resource.RLIMIT_AS, (lim, lim))
                     except (ValueError, OSError):
                         pass
                 sf = open(stackfile, "w")
